@@ -21,8 +21,9 @@ META = {
             "(plane, sphere, box) numerically against the float instance of the kernels. Oracle on implementation output: mj_ray == brute "
             "force over mju_rayGeom with the documented filters (group / static / bodyexclude / invisible), geomid NULL variant, "
             "mj_multiRay == repeated mj_ray (cutoff mjMAXVAL; finite cutoff: must agree whenever the mj_ray hit lies within the cutoff), "
-            "normals of the two entry points identical. Not covered: capsule / cylinder / ellipsoid / mesh / hfield / SDF / flex "
-            "intersection formulas (oracle only through mju_rayGeom self-consistency), IEEE rounding in the kernels, zero-length rays "
+            "normals of the two entry points identical; every per-geom distance of mju_rayGeom (plane, sphere, capsule, ellipsoid, "
+            "cylinder, box) == an independent analytic computation in the harness (1e-6, grazing rays not judged). Not covered: capsule / "
+            "cylinder / ellipsoid formulas in Coq (oracle only), mesh / hfield / SDF / flex rays, IEEE rounding in the kernels, zero-length rays "
             "(mj_ray raises an error; mj_multiRay returns -1 without writing geomid).",
     "note": "Trusted: Coq kernel + the standard library's classical real-number axioms (sig_forall_dec, sig_not_dec, functional "
             "extensionality) for the theorems over R; hand-written model Model/Ray.v; correspondence harness (gcc, driver c16_ray.c "
@@ -66,6 +67,86 @@ def elim_rule(g, bodyexclude, flg_static, gg):
     if gg is None:
         return False
     return gg[min(5, max(0, g["group"]))] == 0
+
+
+def _roots(a, b, c):
+    """real roots of a t^2 + 2 b t + c"""
+    if a <= 0:
+        return []
+    det = b * b - a * c
+    if det < 0:
+        return []
+    sq = math.sqrt(det)
+    return [(-b - sq) / a, (-b + sq) / a]
+
+
+def analytic(typ, pos, mat, size, pnt, vec):
+    """independent analytic distance to a primitive geom (plane 0, sphere 2, capsule 3, ellipsoid 4, cylinder 5, box 6); -1 = miss"""
+    dif = [pnt[i] - pos[i] for i in range(3)]
+    lp = [sum(mat[3 * r + k] * dif[r] for r in range(3)) for k in range(3)]
+    lv = [sum(mat[3 * r + k] * vec[r] for r in range(3)) for k in range(3)]
+    cand = []
+    if typ == 0:
+        if lv[2] > -1e-15:
+            return -1.0
+        t = -lp[2] / lv[2]
+        if t < 0:
+            return -1.0
+        x, y = lp[0] + t * lv[0], lp[1] + t * lv[1]
+        return t if (size[0] <= 0 or abs(x) <= size[0]) and (size[1] <= 0 or abs(y) <= size[1]) else -1.0
+    if typ == 2:
+        cand = _roots(sum(v * v for v in lv), sum(lv[i] * lp[i] for i in range(3)), sum(p * p for p in lp) - size[0] ** 2)
+    elif typ == 4:
+        q = [lp[i] / size[i] for i in range(3)]; w = [lv[i] / size[i] for i in range(3)]
+        cand = _roots(sum(v * v for v in w), sum(w[i] * q[i] for i in range(3)), sum(x * x for x in q) - 1)
+    elif typ == 6:
+        tmin, tmax = -math.inf, math.inf
+        for i in range(3):
+            if abs(lv[i]) < 1e-300:
+                if abs(lp[i]) > size[i]:
+                    return -1.0
+                continue
+            t1, t2 = (-size[i] - lp[i]) / lv[i], (size[i] - lp[i]) / lv[i]
+            tmin, tmax = max(tmin, min(t1, t2)), min(tmax, max(t1, t2))
+        if tmin > tmax or tmax < 0:
+            return -1.0
+        return tmin if tmin >= 0 else tmax
+    elif typ in (3, 5):
+        r, h = size[0], size[1]
+        for t in _roots(lv[0] ** 2 + lv[1] ** 2, lv[0] * lp[0] + lv[1] * lp[1], lp[0] ** 2 + lp[1] ** 2 - r * r):
+            if abs(lp[2] + t * lv[2]) <= h:
+                cand.append(t)
+        for sgn in (-1, 1):
+            if typ == 5:
+                if abs(lv[2]) > 1e-300:
+                    t = (sgn * h - lp[2]) / lv[2]
+                    if (lp[0] + t * lv[0]) ** 2 + (lp[1] + t * lv[1]) ** 2 <= r * r:
+                        cand.append(t)
+            else:
+                c = [lp[0], lp[1], lp[2] - sgn * h]
+                for t in _roots(sum(v * v for v in lv), sum(lv[i] * c[i] for i in range(3)), sum(x * x for x in c) - r * r):
+                    if sgn * (lp[2] + t * lv[2]) >= h:
+                        cand.append(t)
+    nn = [t for t in cand if t >= 0]
+    return min(nn) if nn else -1.0
+
+
+def analytic_check(typ, pos, mat, size, pnt, vec, x):
+    """True = agrees, False = disagrees, None = numerically degenerate (grazing / threshold) ray: not judged"""
+    def close(a, b):
+        return abs(a - b) <= 1e-6 * (1 + abs(a) + abs(b))
+    e0 = analytic(typ, pos, mat, size, pnt, vec)
+    if close(e0, x):
+        return True
+    # jitter the direction and the origin: a robust disagreement persists
+    outs = [e0]
+    for k in range(6):
+        dv = [vec[i] * (1 + (1e-7 if (k >> i) & 1 else -1e-7)) for i in range(3)]
+        dp = [pnt[i] + (1e-8 if k % 2 else -1e-8) for i in range(3)]
+        outs.append(analytic(typ, pos, mat, size, dp, dv))
+    if any(close(o, x) for o in outs) or max(outs) - min(outs) > 1e-5 * (1 + abs(e0)):
+        return None
+    return False
 
 
 def gg_lit(gg):
@@ -112,7 +193,7 @@ def run(ctx):
         return [1 - 2 * (y * y + z * z), 2 * (x * y - w * z), 2 * (x * z + w * y),
                 2 * (x * y + w * z), 1 - 2 * (x * x + z * z), 2 * (y * z - w * x),
                 2 * (x * z - w * y), 2 * (y * z + w * x), 1 - 2 * (x * x + y * y)]
-    for _ in range(150 if quick else 5000):
+    for _ in range(150 if quick else 3000):
         typ = rng.choice([0, 2, 6, 6])
         pos = [rng.uniform(-1, 1) for _ in range(3)]
         mat = q2m(rquat()) if rng.random() < 0.8 else [1.0, 0, 0, 0, 1.0, 0, 0, 0, 1.0]
@@ -140,7 +221,7 @@ def run(ctx):
         gg = None if rng.random() < 0.4 else tuple(rng.randrange(2) for _ in range(6))
         cmds.append(("ROW", (row, gg, rng.randrange(2), rng.choice([-1, -1, 0, 1, 2, n]))))
     # ---- scenes
-    nsc = 25 if quick else 500
+    nsc = 25 if quick else 300
     for _ in range(nsc):
         seed = rng.randrange(1, 1 << 40)
         nb = rng.choice([1, 2, 4, 6, 10]) if quick else rng.choice([1, 2, 4, 6, 10, 16, 24])
@@ -148,8 +229,13 @@ def run(ctx):
         cutoff = MAXVAL if rng.random() < 0.6 else rng.choice([0.5, 1.0, 2.0, 4.0])
         cmds.append(("SCENE", (seed, nb, 12 if quick else 20, gg, rng.randrange(2), rng.choice([-1, -1, 0, 1, 2, 3, 5]), cutoff)))
 
+    cmds.append(("CORPUS", 0))
+    cmds.append(("CORPUS", 1))
+
     def text(c):
         k, p = c
+        if k == "CORPUS":
+            return "CORPUS %d" % p
         if k == "ELIM":
             bodyid, bex, matid, ga0, ma0, flg, weld, ggi, group = p
             gg = GG[ggi]
@@ -186,7 +272,7 @@ def run(ctx):
     elim_res = []
     quad_cases, geom_cases, row_cases, sel_cases = [], [], [], []
     quad_src, geom_src, row_src, sel_src = [], [], [], []
-    nrays = nhits = nmulti_checked = nties = 0
+    nrays = nhits = nmulti_checked = nties = ndegenerate = nanalytic = 0
     samples = []
     for ci, (c, o) in enumerate(zip(cmds, outs)):
         k, p = c
@@ -224,18 +310,14 @@ def run(ctx):
             x = float.fromhex(o.strip())
             geom_cases.append("(%d, %s, %s, %s, %s, %s, %s)" % (typ, ftuple(gpos), ftuple(mat), ftuple(size), ftuple(pnt), ftuple(vec), fl(x)))
             geom_src.append(ci)
-            # oracle (sphere): independent closed form
-            if typ == 2:
-                dif = [pnt[i] - gpos[i] for i in range(3)]
-                a = sum(v * v for v in vec); b = sum(vec[i] * dif[i] for i in range(3)); cc = sum(d * d for d in dif) - size[0] ** 2
-                det = b * b - a * cc
-                exp = -1.0
-                if det >= 0:
-                    nn = [r for r in sorted([(-b - math.sqrt(det)) / a, (-b + math.sqrt(det)) / a]) if r >= 0]
-                    exp = nn[0] if nn else -1.0
-                if abs(x - exp) > 1e-7 * (1 + abs(exp)) and abs(det) > 1e-9:
-                    ctx.violation("impl_violation", {"op": "mju_rayGeom sphere", "pos": gpos, "size": size, "pnt": pnt, "vec": vec}, expected=exp,
-                                  observed=x, theorem="C16_sphere", signature={"site": "ray_sphere"})
+            # oracle: independent analytic distance
+            ok = analytic_check(typ, gpos, mat, size, pnt, vec, x)
+            if ok is None:
+                ndegenerate += 1
+            elif not ok:
+                ctx.violation("impl_violation", {"op": "mju_rayGeom", "geomtype": typ, "pos": gpos, "mat": mat, "size": size, "pnt": pnt, "vec": vec},
+                              expected=analytic(typ, gpos, mat, size, pnt, vec), observed=x, theorem="C16_sphere/C16_plane/C16_box",
+                              signature={"site": "mju_rayGeom", "geomtype": typ})
         elif k == "ROW":
             row, gg, flg, bex = p
             t = o.split()
@@ -263,6 +345,21 @@ def run(ctx):
                              for i, (d, r, grp, st, a0) in enumerate(row))
             row_cases.append("([%s], %s, %s, %s, %s, %s)" % (glit, zc(bex), "true" if flg else "false", gg_lit(gg), zc(int(d1)), zc(g1)))
             row_src.append(ci)
+        elif k == "CORPUS":
+            t = o.split()
+            if len(t) < 6 or t[0] != "CORPUS" or t[1] == "fail":
+                ctx.broken.append(("correspondence", "corpus scene did not run", o[:300])); continue
+            d1, g1, dm, gm = float.fromhex(t[2]), int(t[3]), float.fromhex(t[4]), int(t[5])
+            desc = ["free body rotated 90 deg about x (quat .7071 .7071 0 0) with spheres r=0.1 at (0,0,0) and r=0.3 at (0,0,1) in the body frame; "
+                    "ray pnt=(-2,0,0) vec=(1,0,0), cutoff=mjMAXVAL",
+                    "infinite plane z=0 in the world body; ray pnt=(10,0,1) vec=(0,0,-1), cutoff=5"][p]
+            exp_ray = [(1.9, 0), (1.0, 0)][p]
+            if abs(d1 - exp_ray[0]) > 1e-9 or g1 != exp_ray[1]:
+                ctx.violation("impl_violation", {"op": "corpus scene", "scene": desc}, expected=exp_ray, observed=(d1, g1), theorem="C16_select",
+                              signature={"site": "mj_ray", "class": "not_nearest"})
+            if (dm, gm) != (d1, g1):
+                ctx.violation("impl_violation", {"op": "corpus scene", "scene": desc}, expected={"mj_ray": (d1, g1)}, observed={"mj_multiRay": (dm, gm)},
+                              theorem="C16_multi", signature={"site": "mj_multiRay", "class": ["body_sphere_cull_drops_hit", "plane_dropped_by_cutoff"][p]})
         elif k == "SCENE":
             seed, nb, nray, gg, flg, bex, cutoff = p
             case = {"op": "scene", "seed": seed, "nbody": nb, "geomgroup": gg, "flg_static": flg, "bodyexclude": bex, "cutoff": cutoff}
@@ -313,10 +410,13 @@ def run(ctx):
                 if must_agree:
                     nmulti_checked += 1
                     if (r["dm"], r["gm"]) != best:
-                        ctx.violation("impl_violation", rc_case, expected={"mj_ray": best}, observed={"mj_multiRay": (r["dm"], r["gm"])},
-                                      theorem="C16_multi", signature={"site": "mj_multiRay", "class": "differs_from_mj_ray",
-                                                                      "finite_cutoff": cutoff < MAXVAL,
-                                                                      "plane": bool(best[1] >= 0 and G[best[1]]["type"] == 0)})
+                        cls = "body_sphere_cull_drops_hit" if r["gm"] < 0 else "differs_from_mj_ray"
+                        if best[1] >= 0 and G[best[1]]["type"] == 0 and cutoff < MAXVAL and best[1] in X and \
+                           math.dist(X[best[1]][1], pnt) > cutoff:
+                            cls = "plane_dropped_by_cutoff"
+                        ctx.violation("impl_violation", dict(rc_case, hit_geom_type=G[best[1]]["type"] if best[1] >= 0 else None),
+                                      expected={"mj_ray": best}, observed={"mj_multiRay": (r["dm"], r["gm"])},
+                                      theorem="C16_multi", signature={"site": "mj_multiRay", "class": cls})
                     elif not r["nsame"]:
                         ctx.violation("impl_violation", rc_case, expected="same normal from mj_ray and mj_multiRay", observed="different",
                                       theorem="C16_multi", signature={"site": "mj_multiRay", "class": "normal_differs"})
@@ -327,8 +427,19 @@ def run(ctx):
                                       theorem="C16_multi", signature={"site": "mj_multiRay", "class": "bogus_hit"})
                 ray_lits.append("(%s, %s, %s)" % (F.zlist([dkey(x) for x in r["table"]]), zc(dkey(r["d1"])), zc(r["g1"])))
                 # numeric correspondence of the modelled geom types on real scene geometry
-                if ri < (2 if quick else 4) and (not quick or len(sel_cases) < 12):
+                for gi, (typ, gpos, mat, size) in X.items():
+                    ok = analytic_check(typ, gpos, mat, size, pnt, r["vec"], r["table"][gi])
+                    nanalytic += 1
+                    if ok is None:
+                        ndegenerate += 1
+                    elif not ok:
+                        ctx.violation("impl_violation", dict(rc_case, geom=gi, geomtype=typ, pos=gpos, mat=mat, size=size),
+                                      expected=analytic(typ, gpos, mat, size, pnt, r["vec"]), observed=r["table"][gi],
+                                      theorem="C16_sphere/C16_plane/C16_box", signature={"site": "mju_rayGeom", "geomtype": typ})
+                if ri < 2 and (not quick or len(sel_cases) < 12):
                     for gi, (typ, gpos, mat, size) in X.items():
+                        if typ not in (0, 2, 6):
+                            continue
                         geom_cases.append("(%d, %s, %s, %s, %s, %s, %s)" % (typ, ftuple(gpos), ftuple(mat), ftuple(size), ftuple(pnt), ftuple(r["vec"]),
                                                                              fl(r["table"][gi])))
                         geom_src.append(ci)
@@ -368,7 +479,7 @@ def run(ctx):
             ("c16_geom", geom_cases, geom_src, chk_geom), ("c16_row", row_cases, row_src, chk_row), ("c16_sel", sel_cases, sel_src, chk_sel)]
     from concurrent.futures import ThreadPoolExecutor
     with ThreadPoolExecutor(max_workers=len(jobs)) as ex:
-        results = list(ex.map(lambda j: ctx.coq_eval(j[0], IMPORTS, j[1], j[3], shard={"c16_geom": 80, "c16_sel": 8}.get(j[0], 1000)), jobs))
+        results = list(ex.map(lambda j: ctx.coq_eval(j[0], IMPORTS, j[1], j[3], shard={"c16_geom": 80 if quick else 200, "c16_sel": 8}.get(j[0], 1000)), jobs))
     tm["coq_eval"] = round(time.time() - t0, 1)
     nfail = 0
     for (name, cases, src, chk), fails in zip(jobs, results):
@@ -398,6 +509,8 @@ def run(ctx):
     ctx.cov["support"]["scene_rays_with_hit"] = nhits
     ctx.cov["support"]["multiray_agreement_checked"] = nmulti_checked
     ctx.cov["support"]["rows_with_ties"] = nties
+    ctx.cov["support"]["analytic_distance_checks"] = nanalytic
+    ctx.cov["support"]["analytic_checks_skipped_as_degenerate"] = ndegenerate
     ctx.cov["explanation"] = ("ray_eliminate (%d), ray_quad (%d), mju_rayGeom (%d), sphere rows (%d) and scene selections (%d scenes, %d rays) compared "
                               "with the Coq model; mj_ray / mj_multiRay compared with the brute-force oracle"
                               % (len(elim_res), len(quad_cases), len(geom_cases), len(row_cases), len(sel_cases), nrays))
